@@ -3,7 +3,7 @@
    an update naming itself from its own current run.
    Model: Model/Flood.v (handleRoutingUpdate, step-exact correspondence by `./check C06`) and
    Model/FloodWorld.v (a mesh of such nodes with arbitrary delivery order and loss). *)
-From Receptor Require Import Model.Flood Model.FloodWorld Proofs.Flood Proofs.FloodWorld.
+From Receptor Require Import Model.Flood Model.FloodWorld Model.FloodConc Model.FloodCases Proofs.Flood Proofs.FloodWorld Proofs.FloodConc.
 Open Scope N_scope.
 
 (* 1. Along EVERY history of ordinary updates and expiries (hence every delivery order,
@@ -99,4 +99,43 @@ Example C06_nonvacuous :
   relay_obs (snd (handle_update ex_st (ex_u 10) 2)) = [(3, 10, 1, 5)]
   /\ info_of (fst (handle_update ex_st (ex_u 10) 2)) 5 = Some (7, 1)
   /\ snd (handle_update (fst (handle_update ex_st (ex_u 10) 2)) (ex_u 11) 2) = [].
+Proof. vm_compute. repeat split; reflexivity. Qed.
+
+(* 10. CONCURRENT DELIVERY.  Sessions handle their messages in parallel, so the same update can be in
+       the hands of several threads at once.  With the duplicate filter as one atomic test-and-set
+       (Model/FloodConc.v [step_atomic]), for every number of threads, every assignment of update IDs to
+       them and every interleaving, each update ID gets through the filter - and hence is processed and
+       relayed (theorems 1-9 describe one pass) - at most once; never if it had been seen before; exactly
+       once when every thread has finished, it was new and some thread delivered it. *)
+Theorem C06_concurrent_at_most_once : forall ids seen sched x,
+  (passes x (snd (run_sched step_atomic seen (fresh_threads ids) sched)) <= 1)%nat.
+Proof. exact atomic_at_most_once. Qed.
+Print Assumptions C06_concurrent_at_most_once.
+
+Theorem C06_concurrent_seen_never_passes : forall ids seen sched x,
+  mem_N x seen = true ->
+  passes x (snd (run_sched step_atomic seen (fresh_threads ids) sched)) = 0%nat.
+Proof.
+  exact (fun ids seen sched x M =>
+           eq_trans (atomic_seen_never_passes sched seen x (fresh_threads ids) M) (passes_fresh x ids)).
+Qed.
+Print Assumptions C06_concurrent_seen_never_passes.
+
+Theorem C06_concurrent_exactly_once : forall ids seen sched x,
+  mem_N x seen = false -> In x ids ->
+  all_done (snd (run_sched step_atomic seen (fresh_threads ids) sched)) = true ->
+  passes x (snd (run_sched step_atomic seen (fresh_threads ids) sched)) = 1%nat.
+Proof. exact atomic_exactly_once. Qed.
+Print Assumptions C06_concurrent_exactly_once.
+
+(* a filter that looks the ID up and inserts it in two separate critical sections is not enough: the
+   interleaving check, check, insert, insert lets both threads through *)
+Theorem C06_split_filter_refuted :
+  passes 7 (snd (run_sched step_split [] (fresh_threads [7; 7]) [0; 1; 0; 1]%nat)) = 2%nat.
+Proof. exact split_filter_passes_twice. Qed.
+Print Assumptions C06_split_filter_refuted.
+
+Example C06_concurrent_nonvacuous :
+  let r := run_sched step_atomic [] (fresh_threads [7; 7; 9]) [2; 0; 1; 0]%nat in
+  all_done (snd r) = true /\ passes 7 (snd r) = 1%nat /\ passes 9 (snd r) = 1%nat /\ fst r = [7; 9].
 Proof. vm_compute. repeat split; reflexivity. Qed.
